@@ -202,7 +202,7 @@ def optimiser_semantic(chk, d, entries, nin):
                 continue  # identical ASTs: nothing to compare
             # exact rational execution blows up on large kernels (thousands of digits after a few hundred multiplications of
             # 53-bit table values): those kernels are covered by the structural optimiser correspondence + optimizeCert only
-            if len(c0.ast_sexp) > 400_000:
+            if len(c0.ast_sexp) > (400_000 if chk.tier == "thorough" else 3_000_000):
                 chk.notes.setdefault("exact_exec_skipped_large", []).append(c.name)
                 continue
             for k in range(nin):
